@@ -689,7 +689,9 @@ func c01Ops() []c01Op {
 		n string
 		m map[string]string
 	}{{"a>c", map[string]string{"a": "c"}}, {"a>b", map[string]string{"a": "b"}}, {"swapab", map[string]string{"a": "b", "b": "a"}}, {"none", map[string]string{"zz": "y"}}, {"c>a", map[string]string{"c": "a"}},
-		{"chain", map[string]string{"a": "b", "b": "c"}}, {"a>a_0001", map[string]string{"a": "a_0001", "a_0001": "a_0002"}}} {
+		{"chain", map[string]string{"a": "b", "b": "c"}}, {"a>a_0001", map[string]string{"a": "a_0001", "a_0001": "a_0002"}},
+		// frees a name the duplicate-name policy handed out: the next duplicate of a gets it again
+		{"a_0001>z", map[string]string{"a_0001": "z"}}} {
 		rn := rn
 		add("rename:"+rn.n, true, true, func(w *c01World) {
 			w.call(func() { w.real.Rename(rn.m) })
@@ -1638,7 +1640,7 @@ var c01CoreOps = map[string]bool{
 	"add:a:same": true, "add:b:dupseq": true, "add:c:long": true, "add:a_0001:same": true,
 	"append:shareAll": true, "append:disjoint": true, "append:wrongLen": true,
 	"concat:share1": true, "concat:disjoint": true, "concat:empty": true,
-	"rename:a>c": true, "rename:a>b": true, "rename:swapab": true, "rename:chain": true, "renameRegexp:^a>z": true, "renameRegexp:$>_0001": true,
+	"rename:a>c": true, "rename:a>b": true, "rename:swapab": true, "rename:chain": true, "rename:a_0001>z": true, "renameRegexp:^a>z": true, "renameRegexp:$>_0001": true,
 	"appendId:_x:right": true, "cleanNames": true, "trimNames:3": true, "trimNamesAuto": true,
 	"sort": true, "shuffle": true, "sample:1": true,
 	"filterLength:L+1:-1": true, "filterLength:-1:L-1": true, "dedup:false": true,
